@@ -60,10 +60,10 @@ impl Op {
             Op::Ne => Op::Eq,
             Op::Eeq => Op::Ene,
             Op::Ene => Op::Eeq,
-            Op::Gt => Op::Lt,
-            Op::Lt => Op::Gt,
-            Op::Gte => Op::Lte,
-            Op::Lte => Op::Gte,
+            Op::Gt => Op::Lte,
+            Op::Lt => Op::Gte,
+            Op::Gte => Op::Lt,
+            Op::Lte => Op::Gt,
             Op::Rx => Op::NotRx,
             Op::NotRx => Op::Rx,
             Op::Like => Op::NotLike,
